@@ -93,6 +93,36 @@ func (c07) Gen(r *sim.Rand, tier string, run uint64) *sim.Scenario {
 			ops = append(ops, genComment(r))
 		}
 	}
+	// place deferred labels: "deferlabel l k" becomes "label l" k ops further on
+	{
+		var out []sim.Op
+		type pend struct {
+			l    int64
+			left int64
+		}
+		var pending []pend
+		for _, op := range ops {
+			if op.K == "deferlabel" {
+				pending = append(pending, pend{op.Arg(0), op.Arg(1)})
+				continue
+			}
+			out = append(out, op)
+			keep := pending[:0]
+			for _, p := range pending {
+				p.left--
+				if p.left <= 0 {
+					out = append(out, sim.Op{K: "label", N: []int64{p.l}})
+				} else {
+					keep = append(keep, p)
+				}
+			}
+			pending = keep
+		}
+		for _, p := range pending {
+			out = append(out, sim.Op{K: "label", N: []int64{p.l}})
+		}
+		ops = out
+	}
 	var baseOp *sim.Op
 	if set, base := genBase(r, 200); set {
 		base &= 0x7FFFFF
@@ -152,6 +182,11 @@ func genStraightBranch(r *sim.Rand, flags uint8) []sim.Op {
 	imm := func(name string) sim.Op { return sim.Op{K: "ins", S: name, N: []int64{disp}} }
 	ref := func(name string) []sim.Op {
 		l := int64(r.Intn(allLabelIdx))
+		if r.Chance(1, 2) {
+			// the label is defined a few calls further on (a forward branch that falls through
+			// over code that may switch widths): Gen places it
+			return []sim.Op{{K: "ref", S: name, N: []int64{l}}, {K: "deferlabel", N: []int64{l, int64(r.Range(1, 5))}}}
+		}
 		return []sim.Op{{K: "ref", S: name, N: []int64{l}}, {K: "label", N: []int64{l}}}
 	}
 	switch r.Intn(7) {
